@@ -133,6 +133,7 @@ type encOpts struct {
 	stretch int // extra bytes in opaque bodies
 	padLen  int
 	padPos  int // position of the non-zero byte for pad = "nonzero"
+	fillTo  int // > 0: an outer-only padding extension brings the outer ClientHello message (handshake header included) to exactly this size
 }
 
 func opaqueVal(v string, o encOpts) []byte {
@@ -316,10 +317,25 @@ func (s *sealer) helloBody(h *aHello, random byte, o encOpts, op string, zeroPay
 	b = vec8(b, sidBytes(h.Sid))
 	b = vec16(b, []byte{0x13, 0x01, 0x13, 0x02, 0x13, 0x03})
 	b = vec8(b, []byte{0})
+	fill := -1
+	if o.fillTo > 0 && h.Ech.Type == "outer" && h.Ech.Ct != nil {
+		// sizes do not depend on the sealing: measure the AAD form without the filler
+		o2 := o
+		o2.fillTo = 0
+		plen := zeroPayloadLen
+		if plen < 0 {
+			plen = len(s.helloBody(h.Ech.Ct.Pt, innerRandom, o2, "", -1)) + 16
+		}
+		fill = o.fillTo - 4 - len(s.helloBody(h, random, o2, "", plen)) - 4
+	}
 	var e []byte
 	for _, x := range h.Exts {
 		e = be16(e, int(extCode[x.T]))
 		e = vec16(e, s.extBody(h, x, o, op, zeroPayloadLen))
+	}
+	if fill >= 0 {
+		e = be16(e, 21)
+		e = vec16(e, make([]byte, fill))
 	}
 	b = vec16(b, e)
 	switch h.Pad {
